@@ -310,6 +310,11 @@ def check_overlays(prog: Program, res: Result) -> None:
             loops = [n for n in ast.walk(fi.node) if isinstance(n, ast.For)
                      and f"self.{slot}" in norm(n.iter)]
             inst = f"SCRG.{meth}: overlays {slot}[Change.{role}]"
+            if not loops and slot in utext(fi.node):
+                res.unrecognised("R-ROLE-TABLE", inst, fi.loc(),
+                                 f"{slot} is read, but not by a `for` loop "
+                                 "over it")
+                continue
             if not loops:
                 res.bad("R-ROLE-TABLE", f"{fi.short}: {slot} overlay missing",
                         fi.loc(), f"{inst}: no loop over self.{slot}",
@@ -355,7 +360,12 @@ def check_overlays(prog: Program, res: Result) -> None:
                             f"{rv.short}: dict {n} {kw} <- {norm(v)}",
                             rv.loc(node), f"{inst}: found `{norm(v)}`",
                             instance=inst)
-    if n < 2:
+    if n == 0 and "stereo_change" in utext(rv.node):
+        res.unrecognised("R-ROLE-TABLE", "SCRG.reverse_reaction rebuilds the "
+                         "change dictionaries", rv.loc(),
+                         "no {fleeting, broken, formed} dictionary literal; "
+                         "the roles are swapped in another way")
+    elif n < 2:
         res.bad("R-ROLE-TABLE", f"{rv.short}: change dictionaries",
                 rv.loc(), "SCRG.reverse_reaction does not rebuild both the "
                 f"atom and the bond change dictionaries (found {n})")
